@@ -279,16 +279,17 @@ CHECKS = {
         'assumptions': TX_ASSUMPTIONS,
     },
     'C20': {
-        'pkgs': ['./zzverif/hcpc', './zzverif/htx', './x/feemarket/keeper'],
+        'pkgs': ['./zzverif/hcpc', './zzverif/htx', './x/feemarket/keeper', './zzverif/hsdb'],
         'harnesses': [
             {'fn': C + 'H_C20_2_PrecompileDispatch', 'must_reach': ['short-input']},
+            {'fn': H + 'H_C20_3_BeginBlockRing', 'must_reach': ['pruned', 'kept']},
             {'fn': T + 'H_C13_1_Block2', 'over': {'max-decisions': 3000, 'max-paths': 100000}},
             {'fn': P + 'x/feemarket/keeper.H_C09_3_EndBlock'},
         ],
-        'level_text': 'The engine treats every panic not observed by the harness as a failure; this check runs the harnesses whose panics would be fatal or user-triggerable: (1) arbitrary call data of 0-6 symbolic bytes (optionally with a known selector) to the ERC-20 and staking precompiles through the fork\'s real Call/StaticCall -> RunPrecompiledContract -> RunCustom -> the repo\'s wrapper, with symbolic gas: never a panic; (2) a block of two Ethereum transactions of 8 outcome classes followed by the real x/evm EndBlock: never a panic, every admitted transaction has a receipt, a failure in one transaction leaves the bookkeeping of the next consistent; (3) the fee market EndBlock for every base fee, minimum gas price, consensus MaxGas >= -1 and gas used.',
+        'level_text': 'The engine treats every panic not observed by the harness as a failure; this check runs the harnesses whose panics would be fatal or user-triggerable: (1) arbitrary call data of 0-6 symbolic bytes (optionally with a known selector) to the ERC-20 and staking precompiles through the fork\'s real Call/StaticCall -> RunPrecompiledContract -> RunCustom -> the repo\'s wrapper, with symbolic gas: never a panic; (2) a block of two Ethereum transactions of 8 outcome classes followed by the real x/evm EndBlock: never a panic, every admitted transaction has a receipt, a failure in one transaction leaves the bookkeeping of the next consistent; (3) the fee market EndBlock for every base fee, minimum gas price, consensus MaxGas >= -1 and gas used; (4) the real x/evm BeginBlock (chain id, block-hash ring: store, prune exactly height-256, idempotent) and the BLOCKHASH function at every height: never a panic.',
         'level_note': 'Narrow claim. Decoding of arbitrary transaction bytes (protobuf / RLP / ABI by reflection), gRPC query argument decoding and ALL concurrency (event bus, filter system, websockets, indexer service) are outside the engine.',
-        'bounds': ['(1) input length 0..6 symbolic bytes, 2 contracts, symbolic gas, CALL / STATICCALL', '(2) as C13 quick', '(3) as C09'],
-        'outside': ['byte-level decoders', 'concurrent JSON-RPC / pubsub / filters', 'SDK module begin/end blockers'],
+        'bounds': ['(1) input length 0..6 symbolic bytes, 2 contracts, symbolic gas, CALL / STATICCALL', '(2) as C13 quick', '(3) as C09', '(4) x/evm begin blocker: one inductive step at a symbolic height in [1, 2^62) from any state satisfying the block-hash ring invariant (one arbitrary older entry, present or absent), symbolic 32-byte header hash, BLOCKHASH for an arbitrary other height'],
+        'outside': ['byte-level decoders', 'concurrent JSON-RPC / pubsub / filters', 'begin/end blockers of the Cosmos SDK modules (staking, distribution, ...)'],
         'assumptions': TX_ASSUMPTIONS,
     },
 }
